@@ -46,6 +46,13 @@ def g_mcase(case):
             ops.append("MMPop %s %s" % (g_nat(op[1]), g_optjson(op[2], table)))
         elif k == 'read':
             ops.append("MRead %s" % g_nat(op[1]))
+        elif k == 'get':
+            d = op[2]
+            if d[0] != 'notset':
+                table, vc = label_tree(d[-1], table, vc)
+            ops.append("MGet %s %s" % (g_path(op[1], table), g_default(d, table)))
+        elif k == 'find':
+            ops.append("MFind %s" % g_path(op[1], table))
         else:
             raise ValueError(k)
     return "{| m_doc0 := %s; m_nl0 := %s; m_ops := %s |}" % (g_json(case['doc'], table), g_nat(n), g_list(ops))
@@ -232,3 +239,52 @@ def gen_mcase(rng, kinds=('set', 'cascade', 'pop', 'match'), nops=None, run_impl
         if run_impl is not None:
             shadow = run_impl(shadow, op)
     return {'doc': doc, 'ops': ops}
+
+
+def shadow_step(shadow, op):
+    """evolve the generator's shadow document with plain Python (keys and indices only; other steps: no change)"""
+    try:
+        if op[0] in ('set', 'getstore'):
+            p = op[1]
+            if any(s[0] not in ('key', 'idx') for s in p) or not p:
+                return shadow
+            v = copy.deepcopy(op[2] if op[0] == 'set' else (op[2][-1] if op[2][0] != 'notset' else None))
+            cascade = op[3] if op[0] == 'set' else True
+            cur = shadow
+            for i, s in enumerate(p[:-1]):
+                nxt = p[i + 1]
+                try:
+                    cur = cur[s[1]]
+                except (KeyError, IndexError, TypeError):
+                    if not cascade:
+                        return shadow
+                    new = {} if nxt[0] == 'key' else []
+                    if isinstance(cur, dict) and s[0] == 'key':
+                        cur[s[1]] = new
+                    elif isinstance(cur, list) and s[0] == 'idx' and s[1] == len(cur):
+                        cur.append(new)
+                    else:
+                        return shadow
+                    cur = new
+            s = p[-1]
+            if isinstance(cur, dict) and s[0] == 'key':
+                cur[s[1]] = v
+            elif isinstance(cur, list) and s[0] == 'idx':
+                if -len(cur) <= s[1] < len(cur):
+                    cur[s[1]] = v
+                elif s[1] == len(cur):
+                    cur.append(v)
+        elif op[0] in ('pop', 'pop_match'):
+            p = op[1]
+            if any(s[0] not in ('key', 'idx') for s in p) or not p:
+                return shadow
+            cur = shadow
+            for s in p[:-1]:
+                cur = cur[s[1]]
+            if (isinstance(cur, dict) and p[-1][0] == 'key') or (isinstance(cur, list) and p[-1][0] == 'idx'):
+                cur.pop(p[-1][1])
+    except Exception:
+        pass
+    return shadow
+
+
